@@ -20,7 +20,8 @@ Inductive StEvent :=
 | EvSetDel (key : string) (d : Delegation)
 | EvDelDel (key : string)
 | EvBal (addr : string) (delta : Z)     (* bank effect on a tracked account *)
-| EvFail.                               (* the SDK returns an error here *)
+| EvFail                                (* the SDK returns an error here *)
+| EvPgZero.                             (* simulation only: net effect of the second hook on [pg]; its store writes are discarded *)
 
 Definition del_shares (s : State) (del val : string) : option Z :=
   match find_del s del val with Some d => Some (dl_shares d) | None => None end.
@@ -80,6 +81,7 @@ Definition st_event (e : StEvent) : M unit :=
   | EvDelDel k => modify (fun s => s <| dels ::= delete k |>)
   | EvBal a dlt => modify (fun s => s <| bal ::= <[a := balance s a + dlt]> |>)
   | EvFail => fail "staking error"
+  | EvPgZero => modify (fun s => s <| pg := 0 |>)
   end.
 
 Definition staking_tx (evs : list StEvent) : M unit := forM evs st_event.
